@@ -795,6 +795,8 @@ class NumpyModel:
         if not name.startswith("numpy."):
             if name == "len" and args and _is_arr(ex, args[0]):
                 return self.length(ex, args[0], lineno)
+            if name == "abs" and len(args) == 1 and _is_arr(ex, args[0]):
+                return self.call_builtin(ex, "numpy.abs", args, {}, lineno)
             return NotImplemented
         fn = name[6:]
         st = ex.st
@@ -933,9 +935,10 @@ class NumpyModel:
             r = st.fresh_int("argmin")
             j = z3.Int("j!am")
             st.assume(z3.And(0 <= r, r < A.shape[0]))
-            st.assume(z3.ForAll([j], z3.Implies(z3.And(0 <= j, j < A.shape[0]), A.elems[r] <= A.elems[j]), patterns=[A.elems[j]]))
-            st.assume(z3.ForAll([j], z3.Implies(z3.And(0 <= j, j < r), A.elems[r] < A.elems[j]), patterns=[A.elems[j]]))
-            ex.assumed.add("numpy.argmin: first index of a minimal element (NaN ordering not modelled)")
+            le = lambda a, b: z3.If(is_inf(b), z3.BoolVal(True), z3.If(is_inf(a), z3.BoolVal(False), a <= b))  # +inf-tagged values are the largest  # noqa: E731
+            st.assume(z3.ForAll([j], z3.Implies(z3.And(0 <= j, j < A.shape[0]), le(A.elems[r], A.elems[j])), patterns=[A.elems[j]]))
+            st.assume(z3.ForAll([j], z3.Implies(z3.And(0 <= j, j < r), z3.Not(le(A.elems[j], A.elems[r]))), patterns=[A.elems[j]]))
+            ex.assumed.add("numpy.argmin: first index of a minimal element, +inf-tagged values being the largest (NaN ordering not modelled)")
             return SV(r, TInt)
         if fn in ("minimum", "maximum") and len(args) == 2:
             r = self.compare_any(ex, "LtE" if fn == "minimum" else "GtE", args[0], args[1], lineno)
